@@ -70,11 +70,11 @@ theorem toFNode_deps (F : Array Node) (sf : Array Nat) (n : Node) (d : Nat)
 
 /-- packaging the result of a handler -/
 theorem post_of_handler (S : Array Node) (st : FState) (si : Nat) (F' : Array Node) (d' : Dict)
-    (p : Bool) (hx : Ext st.F F') (hc : Closed F') (hd : DictOK F' d') (hnd : d'.keys.Nodup)
+    (hx : Ext st.F F') (hc : Closed F') (hd : DictOK F' d') (hnd : d'.keys.Nodup)
     (hq : KeysIn (QReal ρ S) d') (hne : d' ≠ [])
     (hv : val ρ S si = factSum ρ F' (val ρ S) d') :
-    StepPost ρ S st si (nextState st F' d' 0 p) :=
-  ⟨F', d', 0, p, rfl, hx, hc, hd, hnd, hq, fun h => absurd h hne, fun _ => hv⟩
+    StepPost ρ S st si (nextState st F' d' 0) :=
+  ⟨F', d', 0, rfl, hx, hc, hd, hnd, hq, fun h => absurd h hne, fun _ => hv⟩
 
 end
 end Ffcx.IR
@@ -94,7 +94,7 @@ theorem handleDivision_ok_fac1 (F : Array Node) (fac0 fac1 : Dict) (sf1 : Nat)
   · rename_i hf1; cases fac1 <;> simp_all
 
 theorem handleConditional_ok_fac0 (F : Array Node) (fac0 fac1 fac2 : Dict) (sf0 : Nat) (z1 z2 : Bool)
-    (r : Array Node × Dict × Bool) (h : handleConditional F fac0 fac1 fac2 sf0 z1 z2 = .ok r) :
+    (r : Array Node × Dict) (h : handleConditional F fac0 fac1 fac2 sf0 z1 z2 = .ok r) :
     fac0 = [] := by
   unfold handleConditional at h
   split at h
@@ -125,7 +125,7 @@ theorem stepNode_post (hρ : LawfulEnv ρ) (hreal : RealArgs ρ) (S : Array Node
     rename_i p num
     simp only [Except.ok.injEq] at h
     subst h
-    refine ⟨st.F, [([si], st.one)], avIndex si, st.pendingZero, rfl, Ext.refl _, hinv.closed, ?_, ?_, ?_, ?_, ?_⟩
+    refine ⟨st.F, [([si], st.one)], avIndex si, rfl, Ext.refl _, hinv.closed, ?_, ?_, ?_, ?_, ?_⟩
     · intro e he; simp at he; subst he; exact hinv.one_lt
     · simp [Dict.keys]
     · intro k hk a ha
@@ -153,7 +153,7 @@ theorem stepNode_post (hρ : LawfulEnv ρ) (hreal : RealArgs ρ) (S : Array Node
         obtain ⟨x, hx, rfl⟩ := toFNode_deps _ _ _ d hd
         exact (hfree x hx).1
       obtain ⟨hx, hc', hlt, _⟩ := graphInsert_spec st.F _ hinv.closed hdeps
-      refine ⟨_, [], _, st.pendingZero, rfl, hx, hc', by intro e he; simp at he, by simp [Dict.keys],
+      refine ⟨_, [], _, rfl, hx, hc', by intro e he; simp at he, by simp [Dict.keys],
         by intro k hk; simp [Dict.keys] at hk, ?_, by intro h; exact absurd rfl h⟩
       intro _
       refine ⟨hlt, ?_⟩
@@ -171,14 +171,10 @@ theorem stepNode_post (hρ : LawfulEnv ρ) (hreal : RealArgs ρ) (S : Array Node
         obtain ⟨F', d'⟩ := r
         have ha := hinv.node a (hdlt a (by simp))
         have hb := hinv.node b (hdlt b (by simp))
-        have hne : facAt st a ≠ [] ∧ facAt st b ≠ [] := by
-          unfold facAt
-          simp [wfNode] at hwf
-          simp at hnall
-          cases h1 : st.facs[a]?.getD [] <;> cases h2 : st.facs[b]?.getD [] <;> simp_all
-        obtain ⟨hx, hc', hd', hnd', hq', hne', hsum⟩ := handleSum_sound ρ hρ (val ρ S) (QReal ρ S)
+        obtain ⟨hne0, hne1, hx, hc', hd', hnd', hq', hne', hsum⟩ := handleSum_sound ρ hρ (val ρ S) (QReal ρ S)
           st.F _ _ F' d' hinv.closed ha.ok hb.ok ha.nodup hb.nodup ha.real hb.real hr
-        refine post_of_handler ρ S st si F' d' _ hx hc' hd' hnd' hq' (hne' (Or.inl hne.1)) ?_
+        have hne : facAt st a ≠ [] ∧ facAt st b ≠ [] := ⟨hne0, hne1⟩
+        refine post_of_handler ρ S st si F' d' hx hc' hd' hnd' hq' (hne' (Or.inl hne.1)) ?_
         rw [hval, hsum]
         have e1 := ha.dep hne.1
         have e2 := hb.dep hne.2
@@ -203,7 +199,7 @@ theorem stepNode_post (hρ : LawfulEnv ρ) (hreal : RealArgs ρ) (S : Array Node
         obtain ⟨hx, hc', hd', hnd', hq', hne', hprod⟩ := handleProduct_sound ρ hρ (val ρ S) (QReal ρ S)
           st.F _ _ _ _ F' d' hinv.closed ha.ok hb.ok ha.nodup hb.nodup ha.real hb.real hne
           (fun h => (ha.free h).1) (fun h => (hb.free h).1) hclash hr
-        refine post_of_handler ρ S st si F' d' _ hx hc' hd' hnd' hq' hne' ?_
+        refine post_of_handler ρ S st si F' d' hx hc' hd' hnd' hq' hne' ?_
         rw [hval, hprod]
         simp only [evalNode]
         congr 1
@@ -226,7 +222,7 @@ theorem stepNode_post (hρ : LawfulEnv ρ) (hreal : RealArgs ρ) (S : Array Node
           exact hnall
         obtain ⟨hx, hc', hd', hnd', hq', hne', hcj⟩ := handleConj_sound ρ hρ (val ρ S) (QReal ρ S)
           (fun a h => h.2.2) st.F _ F' d' hinv.closed ha.ok ha.nodup ha.real hne hr
-        refine post_of_handler ρ S st si F' d' _ hx hc' hd' hnd' hq' hne' ?_
+        refine post_of_handler ρ S st si F' d' hx hc' hd' hnd' hq' hne' ?_
         rw [hval, hcj]
         have e1 := ha.dep hne
         rw [← e1]
@@ -248,7 +244,7 @@ theorem stepNode_post (hρ : LawfulEnv ρ) (hreal : RealArgs ρ) (S : Array Node
           exact hnall h0 hb0
         obtain ⟨_, hx, hc', hd', hnd', hq', hne', hdv⟩ := handleDivision_sound ρ hρ (val ρ S) (QReal ρ S)
           st.F _ _ _ F' d' hinv.closed ha.ok ha.nodup ha.real hne (hb.free hb0).1 hr
-        refine post_of_handler ρ S st si F' d' _ hx hc' hd' hnd' hq' hne' ?_
+        refine post_of_handler ρ S st si F' d' hx hc' hd' hnd' hq' hne' ?_
         rw [hval, hdv]
         have e1 := ha.dep hne
         have e2 := (hb.free hb0).2
@@ -259,18 +255,15 @@ theorem stepNode_post (hρ : LawfulEnv ρ) (hreal : RealArgs ρ) (S : Array Node
         rename_i f0 f1 f2 heq
         rcases ds with _ | ⟨c, _ | ⟨t, _ | ⟨f, _ | ⟨g, u⟩⟩⟩⟩ <;> simp at heq
         obtain ⟨rfl, rfl, rfl⟩ := heq
-        simp only [List.getElem?_cons_zero, List.getElem?_cons_succ, Option.getD_some] at h
-        split at h
-        · cases h
-        rename_i F' d' pending hr
-        simp only [Except.ok.injEq] at h
-        subst h
+        obtain ⟨r, hr, rfl⟩ := except_map_ok _ _ _ h
+        obtain ⟨F', d'⟩ := r
+        simp only [List.getElem?_cons_zero, List.getElem?_cons_succ, Option.getD_some] at hr
         have hcn := hinv.node c (hdlt c (by simp))
         have htn := hinv.node t (hdlt t (by simp))
         have hfn := hinv.node f (hdlt f (by simp))
         have hc0 : facAt st c = [] := handleConditional_ok_fac0 _ _ _ _ _ _ _ _ hr
         obtain ⟨_, hz1, hz2, hx, hc', hd', hnd', hq', hne', hcd⟩ := handleConditional_sound ρ hρ (val ρ S)
-          (QReal ρ S) st.F _ _ _ _ _ _ F' d' pending hinv.closed htn.ok hfn.ok htn.nodup hfn.nodup
+          (QReal ρ S) st.F _ _ _ _ _ _ F' d' hinv.closed htn.ok hfn.ok htn.nodup hfn.nodup
           htn.real hfn.real (hcn.free hc0).1 hr
         have hne : facAt st t ≠ [] ∨ facAt st f ≠ [] := by
           unfold facAt at hc0 ⊢
@@ -278,7 +271,7 @@ theorem stepNode_post (hρ : LawfulEnv ρ) (hreal : RealArgs ρ) (S : Array Node
           by_cases h1 : st.facs[t]?.getD [] = []
           · right; exact hnall hc0 h1
           · left; exact h1
-        refine post_of_handler ρ S st si F' d' _ hx hc' hd' hnd' hq' (hne' hne) ?_
+        refine post_of_handler ρ S st si F' d' hx hc' hd' hnd' hq' (hne' hne) ?_
         rw [hval, hcd]
         simp only [evalNode]
         have ec := (hcn.free hc0).2
